@@ -210,7 +210,7 @@ def r3_type_order(ctx):
         m_, c_, fn_ = ctx.repo.method(t.module, t.node, "_istype")
         what = "a special unit type claims units by membership in its own table, not by the spelling of the symbol"
         spelled = [norm(c) for c in ast.walk(fn_) if isinstance(c, ast.Call) and isinstance(c.func, ast.Attribute)
-                   and (c.func.attr in ("startswith", "endswith", "find", "lower", "upper", "fullmatch")
+                   and (c.func.attr in ("startswith", "endswith", "find", "fullmatch")
                         or (c.func.attr in ("match", "search") and norm(c.func.value) == "re"))]
         if spelled:
             ctx.violated(m_.relpath, f"{c_.name}._istype", what, detail=spelled[0][:100], expected="membership in self.process")
